@@ -59,4 +59,19 @@ for d in sorted(os.listdir(os.path.join(V, "seeded"))):
     origin = "sub-agent" if "sub-agent" in m.get("source", "") and not d.startswith(("NEUTRAL", "MUT", "FIX")) else \
         ("reverse of fix" if d.startswith("FIX") else "own mutant" if d.startswith("MUT") else "neutral variant")
     P("| %s | %s | %s | %s | %s |" % (d, m["property"], origin, (m.get("needs_to_manifest") or "")[:160].replace("|", "/"), res.replace("|", "/")))
-print("\n".join(out))
+text = "\n".join(out)
+import sys
+if "--update" in sys.argv:
+    i8 = text.index("### 8.1")
+    sec7, sec8 = text[:i8], text[i8:] + "\n"
+    dp = os.path.join(V, "DESIGN.md")
+    d = open(dp).read()
+    for tag, sec in (("GEN7", sec7), ("GEN8", sec8)):
+        a = d.index("<!-- %s BEGIN" % tag)
+        a = d.index("\n", a) + 1
+        b = d.index("<!-- %s END -->" % tag)
+        d = d[:a] + sec + d[b:]
+    open(dp, "w").write(d)
+    print("DESIGN.md sections 7 and 8.1 regenerated")
+else:
+    print(text)
